@@ -113,6 +113,11 @@ def runBin : List String → String
   | "slab-rd" :: toks => SlabRead.run ("slab-rd" :: toks)
   | "lu-enc" :: toks => Landuse.run ("lu-enc" :: toks)
   | "lu-read" :: toks => Landuse.run ("lu-read" :: toks)
+  | ["frame", hex] =>
+    -- one Fortran record around a payload of whole words (FortranFileUtil.writeline): marker, payload, marker
+    match parseWords hex with
+    | some w => "ok " ++ showWords (frame w)
+    | none => "err parse"
   | "uamiv-write" :: toks =>
     match parseWriteIn toks with
     | some i => "ok " ++ showWords (writerContent i).encode
